@@ -53,9 +53,10 @@ func (k *FieldKeyStore) GetKeyPair() (*rsa.PrivateKey, []byte, error) {
 // FaultCtl switches the signers of one SP configuration between working and failing (an HSM
 // or remote signer that is temporarily unavailable).
 type FaultCtl struct {
-	Fail  bool
-	Calls int
-	Fired int
+	Fail     bool
+	FailNext int // fail this many further calls, then work again (a transient outage)
+	Calls    int
+	Fired    int
 }
 
 // FaultySigner wraps a crypto.Signer and fails on demand.
@@ -68,7 +69,10 @@ var ErrSignerFault = errors.New("simulated signer failure")
 
 func (f *FaultySigner) Sign(r io.Reader, digest []byte, opts crypto.SignerOpts) ([]byte, error) {
 	f.Ctl.Calls++
-	if f.Ctl.Fail {
+	if f.Ctl.Fail || f.Ctl.FailNext > 0 {
+		if f.Ctl.FailNext > 0 {
+			f.Ctl.FailNext--
+		}
 		f.Ctl.Fired++
 		return nil, ErrSignerFault
 	}
